@@ -451,6 +451,40 @@ def rule_N3_flag(ctx):
                       ctx.where(sm, i))
 
 
+def cached_misfit_follows_noise(ctx, rule):
+    """`Simulation.misfit` returns a cached value.  The noise model lives in
+    the survey and can be assigned at any time (`survey.relative_error =
+    ..`); for the returned misfit to be the documented formula with the
+    CURRENT standard deviation, the decision to recompute has to look at
+    something that such an assignment changes (the stored weights against
+    the current standard deviation, a counter of the survey, ...).  A test
+    of the cached value alone returns the misfit of the old noise model
+    (witness K6)."""
+    sm = ctx.repo.mod(SIMS)
+    mf = [m for m in sm.methods('Simulation', 'misfit')
+          if 'property' in au.decorator_names(m)]
+    ctx.anchor(len(mf) == 1, 'Simulation.misfit getter')
+    tests = [n.test for n in ast.walk(mf[0]) if isinstance(n, ast.If) and
+             any(isinstance(x, ast.Attribute) and x.attr == '_misfit'
+                 for x in ast.walk(n.test))]
+    ctx.anchor(len(tests) >= 1, 'cache test of Simulation.misfit')
+    reads = set()
+    for t in tests:
+        for x in ast.walk(t):
+            if isinstance(x, ast.Attribute):
+                reads.add(x.attr)
+            elif isinstance(x, ast.Name):
+                reads.add(x.id)
+    ok = bool(reads - {'_misfit', 'self', 'None'})
+    ctx.check(rule, 'cached misfit follows the current noise model', ok,
+              'Simulation.misfit is recomputed only if the cached value is '
+              'None; assigning noise_floor / relative_error / '
+              'standard_deviation of the survey afterwards does not reset '
+              'it: the misfit (and the cached gradient) of the old noise '
+              'model is returned until clean() / compute()',
+              ctx.where(sm, tests[0]))
+
+
 def flag_arm_keeps_array(ctx, rule):
     """An array-valued noise setting is saved as the string flag
     'data._<name>' plus the array among the data sets; on loading (and in
@@ -720,3 +754,4 @@ def run(ctx):
     from .c17 import h5_order
     h5_order(ctx, 'C13.N4.h5order')
     flag_arm_keeps_array(ctx, 'C13.N3.flag')
+    cached_misfit_follows_noise(ctx, 'C13.N5.weights')
